@@ -927,6 +927,38 @@ Proof using Hthr Hvalid Hwf Hcc Hgr.
       discriminate.
 Qed.
 
+Lemma on_done_true : forall A (m : M A), on_done m (fun _ => True).
+Proof. intros A m s. destruct (m s); exact I. Qed.
+
+(* every certificate returned through the dispatcher is duplicate-free *)
+Theorem run_query_cert_nodup : forall fuel s q cert e al,
+  q = QDC \/ q = QDS ->
+  s = GR \/ s = ST \/
+  (s = CO /\ q = QDC /\ enc_base e = BCo /\ al <> [] /\ forall a, In a al -> In a (args F)) ->
+  on_done (run_query oracle thr fuel s q cert e g al)
+    (fun o => match o with OAcc _ (Some L) => NoDup L | _ => True end).
+Proof using Hthr Hvalid Hwf Hcc Hmerged Hgr Hgr_cc Hgr_cc_nd.
+  intros fuel s q cert e al Hq [-> | [-> | [-> [-> [He [Hne Hal]]]]]];
+    [destruct Hq as [-> | ->] ..|]; unfold run_query; cbv zeta.
+  - destruct (gr_dc g al) as [b c] eqn:E. destruct (gr_dc_whole al b c E) as [_ H2].
+    destruct cert; apply (on_done_bind _ _ _ _ (fun r => r = (b, c)));
+      try (apply on_done_ret; reflexivity); intros r ->; apply on_done_ret; cbn [fst snd];
+      try exact I. destruct c; [tauto|exact I].
+  - destruct (gr_ds g al) as [b c] eqn:E. destruct (gr_ds_whole al b c E) as [_ H2].
+    destruct cert; apply (on_done_bind _ _ _ _ (fun r => r = (b, c)));
+      try (apply on_done_ret; reflexivity); intros r ->; apply on_done_ret; cbn [fst snd];
+      try exact I. destruct c; [tauto|exact I].
+  - destruct cert; apply (on_done_bind _ _ _ _ _ _ (st_dc_whole al));
+      intros [[|] [L|]] H; cbv beta iota in H; apply on_done_ret; cbn [fst snd]; try exact I; tauto.
+  - destruct cert; apply (on_done_bind _ _ _ _ _ _ (st_ds_whole al));
+      intros [[|] [L|]] H; cbv beta iota in H; apply on_done_ret; cbn [fst snd]; try exact I; tauto.
+  - destruct cert.
+    + apply (on_done_bind _ _ _ _ _ _ (co_dc_cert_nodup e al He Hne Hal)).
+      intros [b [L|]] H; cbn [snd] in H; apply on_done_ret; cbn [fst snd]; [tauto|exact I].
+    + apply (on_done_bind _ _ _ _ _ _ (on_done_true _ (co_dc oracle thr e g al))).
+      intros b _. apply on_done_ret. exact I.
+Qed.
+
 End Whole.
 
 (* ------------------------------------------------------------------------------------------ *)
@@ -943,3 +975,4 @@ Print Assumptions co_dc_cert_nodup.
 Print Assumptions run_query_se_whole.
 Print Assumptions run_query_dc_whole.
 Print Assumptions run_query_ds_whole.
+Print Assumptions run_query_cert_nodup.
